@@ -86,3 +86,17 @@ Definition mogen (s : cmap orswot) (a : N) (c : mocmd) : option (mop oop) :=
 (** op-based replication under causal delivery (duplicates allowed), no state merges *)
 Notation moreach := (reach mnew (mapply orswot_valops) (mmerge orswot_valops) adm_causal False).
 Notation mohist_ok := (hist_ok mnew (mapply orswot_valops) (mmerge orswot_valops) mogen adm_causal False).
+
+(** * Per-actor delivery (C08) for the fragment without nested removes.
+
+    Known finding T3 shows that an update carrying a NESTED remove breaks the value layer once
+    deliveries overtake (a key remove can drop an entry together with a parked nested remove).
+    Without nested removes — members are added under keys, keys are removed — delivery only has
+    to respect each actor's own issue order: the commands below exclude [MORm]; the specification
+    [mo_entries] is the same (a witness is covered by every APPLIED key remove naming its key,
+    whether that remove is still pending at key level or not). *)
+Definition mo_addonly (c : mocmd) : bool := match c with MORm _ _ _ => false | _ => true end.
+Definition mogen_ao (s : cmap orswot) (a : N) (c : mocmd) : option (mop oop) :=
+  if mo_addonly c then mogen s a c else None.
+Notation moreach_pa := (reach mnew (mapply orswot_valops) (mmerge orswot_valops) adm_per_actor False).
+Notation mohist_ok_pa := (hist_ok mnew (mapply orswot_valops) (mmerge orswot_valops) mogen_ao adm_per_actor False).
